@@ -1347,16 +1347,20 @@ def macro_from_definition_string(string):
     Construct a Macro or MacroFunction by parsing a string of the form
     MACRO=expansion.
     """
-    tokens = Lexer(string).tokenize()
+    # Like a compiler, cut the string at the first "=" character (which may
+    # be followed by further "=" characters that belong to the expansion).
+    head, sep, value = string.partition("=")
+    tokens = Lexer(head + " " + value).tokenize()
     parser = DirectiveParser(tokens)
 
     (identifier, args) = parser.macro_definition()
 
-    # Any remaining tokens after an "=" are the macro expansion
-    if not parser.eol():
-        parser.match_value(Operator, "=")
+    # Any remaining tokens after the "=" are the macro expansion
+    if sep:
         expansion = parser.tokens[parser.pos :]
         parser.pos = len(parser.tokens)
+    elif not parser.eol():
+        raise ParseError("Expected =.")
     else:
         expansion = [NumericalConstant("Unknown", None, False, "1")]
 
